@@ -112,4 +112,12 @@ def pyFoldE {α σ : Type} (f : α → σ → Except PyErr σ) : List α → σ 
 def pyRangeFoldE {σ : Type} (lo hi : Int) (init : σ) (f : Int → σ → Except PyErr σ) : Except PyErr σ :=
   pyFoldE f ((List.range (hi - lo).toNat).map fun (i : Nat) => lo + (i : Int)) init
 
+/-- `k in d` for a dict literal held as an association list -/
+def pyLitHas {κ ν : Type} [DecidableEq κ] (d : List (κ × ν)) (k : κ) : Bool := (lookup k d).isSome
+/-- `d[k]` on a dict literal: `KeyError` when absent -/
+def pyLitGet {κ ν : Type} [DecidableEq κ] (d : List (κ × ν)) (k : κ) : Except PyErr ν :=
+  match lookup k d with
+  | some v => .ok v
+  | none => .error .keyError
+
 end Opcua
